@@ -100,11 +100,15 @@ func runC17(t *testing.T, rng *rand.Rand, rec *sim.Rec, tier string, caseNo int)
 	time.Sleep(time.Duration(rng.Intn(3_000_000))*time.Second + time.Duration(rng.Intn(1000))*time.Millisecond)
 	kind := credKinds[caseNo%2]
 	secret := pick(rng, []string{"s3cret", "", "a much longer shared secret with spaces", "ключ", string([]byte{0, 1, 2, 255})})
-	user := pick(rng, []string{"alice", "", "bob:extra", "user with space", "1700000000", "50%off", "%s%d%v", "a%"})
+	user := pick(rng, []string{"alice", "", "bob:extra", "user with space", "1700000000", "50%off", "%s%d%v", "a%",
+		// longer than any fixed-size scratch buffer
+		"session-" + strings.Repeat("0123456789abcdef", 6) + "-000042", strings.Repeat("u", 63), strings.Repeat("v", 64), strings.Repeat("w", 65)})
 	realm := pick(rng, []string{"verif.test", "", "пример", "re%alm", "100%25"})
 	dur := pick(rng, []time.Duration{-time.Hour, -time.Second, 0, time.Second, 5 * time.Second, time.Minute, 24 * time.Hour,
 		// durations with a sub-second part: the stamp is the second in which now+duration falls
-		1900 * time.Millisecond, 500 * time.Millisecond, -500 * time.Millisecond, 2500 * time.Millisecond, 999 * time.Millisecond, 61*time.Second + time.Millisecond})
+		1900 * time.Millisecond, 500 * time.Millisecond, -500 * time.Millisecond, 2500 * time.Millisecond, 999 * time.Millisecond, 61*time.Second + time.Millisecond,
+		// far horizons: expiry stamps beyond 2^31 and 2^32 seconds
+		40 * 365 * 24 * time.Hour, 150 * 365 * 24 * time.Hour})
 	handler := kind.handler(secret)
 	username, password, err := kind.gen(secret, user, dur)
 	if err != nil {
